@@ -136,6 +136,13 @@ def e_exn(name):
     m = _re.fullmatch(r'Base(\d+)', name)
     if m:
         return '(EBase %s)' % e_N(int(m.group(1)))
+    extra = {'StopIteration': 901, 'StopAsyncIteration': 902, 'ArithmeticError': 903, 'ZeroDivisionError': 904,
+             'LookupError': 905, 'OSError': 906, 'AssertionError': 907, 'RecursionError': 908, 'UnicodeError': 909,
+             'NotImplementedError': 910, 'BufferError': 911, 'EOFError': 912}
+    if name in extra:
+        return '(ECustom %s)' % e_N(extra[name])
+    if name in ('GeneratorExit', 'KeyboardInterrupt', 'SystemExit'):
+        return '(EBase %s)' % e_N({'GeneratorExit': 901, 'KeyboardInterrupt': 902, 'SystemExit': 903}[name])
     return {'TypeError': 'ETypeError', 'KeyError': 'EKeyError', 'ValueError': 'EValueError',
             'IndexError': 'EIndexError', 'AttributeError': 'EAttributeError', 'RuntimeError': 'ERuntimeError',
             'PolicyExistsError': 'EPolicyExists', 'PolicyCreationError': 'EPolicyCreation',
